@@ -186,8 +186,16 @@ impl Enc {
                 if !a.ty.is_int() || !a.ty.signed() {
                     return unsup(format!("negation of {}", a.ty));
                 }
-                // arrow `neg_wrapping`
+                // arrays: arrow `neg_wrapping`; an operand without column references evaluates to a scalar, and
+                // ScalarValue::arithmetic_negate is CHECKED (negating the type minimum is an error)
                 let v = self.def(&a.ty.sort(), format!("(bvneg {})", a.v));
+                let mut cols = vec![];
+                e.columns(&mut cols);
+                if cols.is_empty() {
+                    let ovf = and2(&not1(&a.n), &format!("(= {} {})", a.v, bv_lit(a.ty.min_max().0, a.ty.bits())));
+                    let (em, eu) = (or2(&a.em, &ovf), or2(&a.eu, &ovf));
+                    return Ok(V { v, em, eu, ..a });
+                }
                 Ok(V { v, ..a })
             }
             X::Is(op, e) => {
